@@ -19,6 +19,11 @@ NOTE_E1 = ("Trusted: CPython, the symx proxies/shims (vf/symx.py, vf/npshim.py),
            "instruction-text helpers are stubbed outside C19. Every path witness is re-executed natively.")
 
 CHECKS = {
+    'C01': dict(engine=E1, design='§4 C01',
+                technique="symbolic execution of Container.transfer/Plate.transfer over 20 geometries with z3; per-substance sums as polynomial identities",
+                text="per-substance conservation over all physical objects and identity of every bystander well, for "
+                     "20 source/destination geometries (two plates, one plate disjoint/overlapping, container into "
+                     "itself, whole Plate on either side, lists, stepped slices) with every well amount symbolic."),
     'C02': dict(engine=E1, design='§4 C02',
                 technique="symbolic execution of Container.transfer/Plate.transfer with z3 (QF_NRA/LRA), differential vs independent unit table",
                 text="size of the aliquot (in the unit of q), uniformity (cross-multiplied ratios) and destination gain "
